@@ -117,8 +117,9 @@ PROPS["C07"] = {
     },
 }
 PROPS["C03"]["claim"] = {
-    "text": "Theorems (Properties/C03.v): Marshal never fails and returns exactly Size(v) bytes for every value of the universe; encode/size agreement for every codec and flag word. Round trip Unmarshal(Marshal(v)) = v (up to nil-vs-empty) "
-            "is checked by correspondence against the model and the property oracle on every run and is being proved (Proto/RoundTrip.v); one recorded finding (pointer to a message with empty encoding decodes as nil).",
+    "text": "Theorems (Properties/C03.v) on the proto model: Marshal never fails and returns exactly Size(v) bytes for every value of the universe; encode/size agreement for every codec and flag word; the round trip Unmarshal(Marshal(&v)) = v up to nil-vs-empty "
+            "for every supported type (nesting, pointers, repeated fields and maps of any size, zigzag/fixed tags, byte arrays, RawMessage) and every representable value. The exclusions are explicit boolean predicates, each shown necessary by a machine-checked counterexample "
+            "(recorded finding F17: a non-nil pointer to a message with empty encoding decodes as nil; a top-level pointer to an empty RawMessage; a 'rep' tag on a non-repeated field).",
     "note": "Trusted as C16; map iteration order is the list order of the model (Go's random order is canonicalised by sorting in the harness).",
 }
 
@@ -172,4 +173,42 @@ PROPS["C02"] = {
     "nontrivial": nontrivial_default,
     "trusted_base": COMMON_TB + ["the reflection-driven decoder (json/decode.go) is NOT modelled as a whole: proved components are the syntax recogniser and scanners; everything else is decided by differential execution against encoding/json"],
     "assumptions": ["after a failed decode both libraries restart from a fresh target (partial content is not part of the guarantee)"],
+}
+
+JSON_STATE_TB = COMMON_TB + ["Json/StreamModel.v: hand-written models of Decoder.readValue (buffer/refill/offset discipline) and Tokenizer.Next (delimiter state machine, scope stack) over the machine-translated scanners; tied by correspondence"]
+PROPS["C11"] = {
+    "harness": "c11",
+    "models": ["Json/StreamModel.v (read_value/decode_all)", "Generated/JsonParseGen.v"],
+    "rule": "value streams (short: every failure offset 0..64 x 8 delivery modes; tokens straddling the 4096/32768/65536 read boundaries at deltas -3..3; long streams with values larger than the read quantum and the initial buffer; streams ending inside a value / with a syntax error) "
+            "x reader scripts {single read, 1 byte, zero-length reads, pseudo-random chunks 1..K for K in 3,7,100,5000, data returned together with the terminal error} x terminal {io.EOF, reader error at offset f}; "
+            "observable: compacted values in order + final class (eof/ueof/readerr/syntax) with InputOffset monotonicity, Buffered()+unread == unconsumed and error stickiness checked inline; oracle: encoding/json.Decoder on the same bytes in one read "
+            "(for failing readers: a prefix of the whole stream's values followed by the reader's error); Parse remainder vs encoding/json InputOffset",
+    "nontrivial": nontrivial_default,
+    "trusted_base": JSON_STATE_TB,
+    "assumptions": ["a failing reader keeps returning its error", "model and implementation are compared on values and final class only (offsets depend on how much white space happened to be buffered)"],
+}
+PROPS["C17"] = {
+    "harness": "c17",
+    "models": ["Json/StreamModel.v (t_next/tokenize)", "Generated/JsonParseGen.v"],
+    "rule": "every string of <= 3 symbols over the JSON class alphabet; grammar-directed documents (depth <= 5) emphasising empty containers inside non-empty ones and keys after nested containers, with single-byte corruptions; Reset after a partial run on another (possibly invalid) document; "
+            "observable: Value of every token, Depth/Index/IsKey of scalars and opening delimiters, ERR marker, with termination, the sub-slice/Remaining contract and error stickiness checked inline; oracle for valid documents: tokens derived from encoding/json's Decoder.Token stream on the compacted document",
+    "nontrivial": nontrivial_default,
+    "trusted_base": JSON_STATE_TB,
+    "assumptions": [],
+}
+
+PROPS["C04"]["claim"] = {
+    "text": "Theorems (Properties/C04.v) on the thrift model: for both protocols, every supported struct type (ids in any order and spacing, gaps > 15, ranges > 64, required/optional/enum, bools in nested and pointer positions, lists, sets, maps, nested and pointer-to structs) and every value whose required fields are set, "
+            "Unmarshal(Marshal(v)) = v up to nil-vs-empty (and -0.0 = 0.0), and the two protocols decode each other's logical content to the same value. Reset of Encoder/Decoder is covered by correspondence (a reused encoder/decoder vs a fresh one).",
+    "note": "Trusted: Coq kernel, the hand-written thrift model tied by correspondence (model = implementation on ~6.4k random type/value/protocol cases per run), extraction+driver, harness. Strict/non-strict binary differ only in message headers, which are outside the model; unions and unsigned kinds are outside the universe.",
+}
+PROPS["C08"]["claim"] = {
+    "text": "Theorems (Properties/C08.v) on the thrift model: EVERY byte string decodes to a value or an error for either protocol and any target type - the bitset index check and the collection-size handling can never panic, fuel is linear in the input; "
+            "every proper prefix of a valid encoding yields io.EOF (empty) or an unexpected-EOF class error; trailing bytes are reported. Unknown-field skipping, MissingField and allocation behaviour are decided by correspondence with property oracles (wider structs, removed required fields, runs under an address-space limit).",
+    "note": "Trusted as C04. Memory allocation is observed (ulimit -v), not modelled; TypeMismatch in strict mode is covered by the model's decoder but has no theorem yet.",
+}
+PROPS["C13"]["claim"] = {
+    "text": "Theorems (Properties/C13.v): the package's encoder model equals a transcription of the Apache Thrift binary and compact protocol specifications for every supported type and value once three recorded deviations are switched on in the transcription "
+            "(binary type codes, 3-byte binary stop field, big-endian compact doubles), and is refuted without them by concrete witnesses. Any other byte-level deviation breaks the theorem or the correspondence.",
+    "note": "Trusted as C04, plus the specification transcription (Thrift/Spec.v spec_enc and harness specEnc), written from memory of the specification documents: no Apache Thrift implementation is available offline; this is the weakest oracle of the development. Reader acceptance of alternative conformant encodings (long forms) is covered by the decoder theorems of C04/C08 only for the package's own output.",
 }
